@@ -882,8 +882,11 @@ fn main() {
         "enc_exec",
         s.scale(1_500, 60_000),
         || {
+            // no expiry-bearing commands: both servers here run on the wall clock
+            // (ProductionTimeSource), and a verdict must not depend on it
             let o = vcore::gen::GenOpts {
                 random: false,
+                expiry: false,
                 ..Default::default()
             };
             let cmd = prop_oneof![
